@@ -360,7 +360,7 @@ func runC37(c *core.Ctx) error {
 	depth := c.Pick(14, 30)
 	_, err = c.TLC(core.TLCOpts{Spec: "Cmds", MCDefs: mc, CfgName: "histories-sim",
 		Cfg:      c37Cfg("SpecL", depth, true, depth, false, "TypeOK Refines Emit"),
-		Simulate: true, SimNum: c.Pick(150, 2500), SimDepth: depth + 1, Seed: c.Seed, OnLine: handle})
+		Simulate: true, SimNum: c.Pick(150, 1200), SimDepth: depth + 1, Seed: c.Seed, OnLine: handle})
 	if err != nil {
 		return err
 	}
